@@ -685,8 +685,10 @@ def _stmt_start(toks, i, lo):
                 depth -= 1
             elif t.s == "}":
                 if depth == 0:
-                    # a preceding block statement ends here -- unless it is followed by `else`/method chain
-                    return j + 1
+                    # a preceding block statement ends here -- unless it is followed by `else` / a method chain
+                    nx = sidx(toks, j + 1)
+                    if not (nx < len(toks) and toks[nx].s in ("else", ".", "?")):
+                        return j + 1
                 depth += 1
             elif t.s == "{":
                 if depth == 0:
@@ -727,10 +729,10 @@ def place_marks(body, fc):
         return body
     first = body[0]
     for w in wanted:
-        m = re.match(r"^loop (\d+) (inv|body-start|body-end)$", w) or re.match(r"^(after-loop) (\d+)$", w)
+        m = re.match(r"^loop (\d+) (inv|body-start|body-end)$", w) or re.match(r"^(after-loop|before-loop) (\d+)$", w)
         if m:
-            if m.group(1) == "after-loop":
-                k, what = int(m.group(2)), "after"
+            if m.group(1) in ("after-loop", "before-loop"):
+                k, what = int(m.group(2)), m.group(1).split("-")[0]
             else:
                 k, what = int(m.group(1)), m.group(2)
             if k < 1 or k > len(loops):
@@ -738,7 +740,7 @@ def place_marks(body, fc):
             kw = loops[k - 1]
             o = _loop_body_open(body, kw)
             c = match_close(body, o)
-            pos = {"inv": o, "body-start": o + 1, "body-end": c, "after": c + 1}[what]
+            pos = {"inv": o, "body-start": o + 1, "body-end": c, "after": c + 1, "before": kw}[what]
             ins.append((pos, Mark(w, body[min(pos, len(body) - 1)])))
             continue
         m = re.match(r"^(before|after)-call (\d+) of (.+)$", w)
@@ -765,6 +767,18 @@ def place_marks(body, fc):
             ins.append((len(body), Mark(w, body[-1])))
         elif w == "before-return":
             last = pidx(body, len(body) - 1)
+            if last >= 0 and body[last].k == "p" and body[last].s in CLOSE:
+                # the tail expression ends with a delimited group (struct literal, call, block): skip it
+                depth, q = 0, last
+                while q >= 0:
+                    if body[q].k == "p" and body[q].s in CLOSE:
+                        depth += 1
+                    elif body[q].k == "p" and body[q].s in OPEN:
+                        depth -= 1
+                        if depth == 0:
+                            break
+                    q -= 1
+                last = q - 1
             pos = sidx(body, _stmt_start(body, last + 1, 0)) if last >= 0 else 0
             ins.append((pos, Mark(w, body[min(pos, len(body) - 1)])))
         else:
@@ -818,6 +832,36 @@ def rewrite_macros(toks):
                     cond = args[0]
                 new = T("{ let vf_dbg: bool = ", like) + cond + T("; assert(vf_dbg); }", like)
             toks[s:c + 1] = [t for t in new if t.k != "mark"] + marks
+            changed = True
+            break
+    return toks
+
+
+def rewrite_anyhow(toks):
+    """R17 (opt-in, unit option `anyhow`): `bail!(..)` -> `return Err(vf_err())`,
+    `ensure!(c, ..)` -> `if !(c) { return Err(vf_err()); }` (message arguments dropped; an optional
+    `anyhow::` path prefix is consumed). `anyhow::Result<T>` is renamed by the unit's @gsubst."""
+    changed = True
+    while changed:
+        changed = False
+        for s, o, c, name in _macro_calls(toks, {"bail", "ensure"}):
+            like = toks[s]
+            a = s
+            p1 = pidx(toks, s - 1)
+            p2 = pidx(toks, p1 - 1) if p1 > 0 else -1
+            p3 = pidx(toks, p2 - 1) if p2 > 0 else -1
+            if p3 >= 0 and is_p(toks[p1], ":") and is_p(toks[p2], ":") and toks[p3].s == "anyhow":
+                a = p3
+            marks = [t for t in toks[a:c + 1] if t.k == "mark"]
+            if name == "bail":
+                new = T("return Err(vf_err())", like)
+            else:
+                args = split_args(toks[o + 1:c])
+                if not args or not strip_ws(args[0]):
+                    raise ExtractError("ensure! without a condition at line %d" % like.line)
+                cond = [t for t in args[0] if t.k != "mark"]
+                new = T("if !(", like) + cond + T(") { return Err(vf_err()); }", like)
+            toks[a:c + 1] = new + marks
             changed = True
             break
     return toks
@@ -895,7 +939,7 @@ def rewrite_join(toks, order):
         toks[a:c + 1] = new
 
 
-def rewrite_for_loops(toks):
+def rewrite_for_loops(toks, arrays=()):
     """R11 / R19: `for` over non-range iterators -> loop/while forms Verus accepts.
     Keeps any `loop K inv` / body-start / body-end marks in place."""
     i = 0
@@ -936,26 +980,38 @@ def rewrite_for_loops(toks):
             continue
         c = match_close(toks, o)
         body = toks[o + 1:c]
+        # marks at the very start of the body (`loop K body-start`) go before the generated `let`s
+        lead = []
+        while body and body[0].k in ("ws", "comment", "mark"):
+            if body[0].k == "mark":
+                lead.append(body[0])
+            body = body[1:]
         like = t
         etxt = [e.s for e in es]
-        if etxt[:2] == ["&", "mut"] and len(es) == 3 and es[2].k == "ident":
+        if etxt[:2] == ["&", "mut"] and len(es) == 3 and es[2].s in arrays and len(ps) == 1:
+            # R19d (opt-in, unit option `array_iter_mut`: names of local arrays): for P in &mut ARR
+            # == index loop over ARR yielding `&mut ARR[i]` in index order (IntoIterator for &mut [T; N])
+            x, v = es[2].s, ps[0].s
+            new = (T("{ let mut vf_i: usize = 0; while vf_i < (%s).len() " % x, like) + marks + T("{ ", like)
+                   + lead + T("let %s = &mut (%s)[vf_i]; " % (v, x), like) + body + T(" vf_i += 1; } }", like))
+        elif etxt[:2] == ["&", "mut"] and len(es) == 3 and es[2].k == "ident":
             # R11: for P in &mut X  ==  loop { match X.next() { Some(P) => body, None => break } }
             x = es[2].s
             new = (T("loop ", like) + marks + T("{ match %s.next() { Some(" % x, like) + pat + T(") => {", like)
-                   + body + T("} None => { break; } } }", like))
+                   + lead + body + T("} None => { break; } } }", like))
         elif etxt[-4:] == [".", "iter", "(", ")"] and "zip" not in etxt and ps[0].s == "&" and len(ps) == 2:
             # R19c: for &b in X.iter()
             xs = txt(es[:-4])
             v = ps[1].s
             new = (T("{ let mut vf_i: usize = 0; while vf_i < (%s).len() " % xs, like) + marks
-                   + T("{ let %s = (%s)[vf_i]; " % (v, xs), like) + body + T(" vf_i += 1; } }", like))
+                   + T("{ ", like) + lead + T("let %s = (%s)[vf_i]; " % (v, xs), like) + body + T(" vf_i += 1; } }", like))
         elif len(ps) == 1 and len(es) > 5 and etxt[-4] == "(" and es[-1].s == ")" and etxt[-5] == "chunks_exact_mut":
             # R19b: for b in Y.chunks_exact_mut(K)
             ys, kk, v = txt(es[:-6]), es[-3].s if len(es[-3:-1]) == 2 else None, ps[0].s
             kk = txt(es[etxt.index("chunks_exact_mut") + 2:-1])
             ys = txt(es[:etxt.index("chunks_exact_mut") - 1])
             new = (T("{ let vf_n: usize = (%s).len() / (%s); let mut vf_i: usize = 0; while vf_i < vf_n " % (ys, kk), like)
-                   + marks + T("{ let %s = &mut (%s)[vf_i * (%s)..(vf_i + 1) * (%s)]; " % (v, ys, kk, kk), like)
+                   + marks + T("{ ", like) + lead + T("let %s = &mut (%s)[vf_i * (%s)..(vf_i + 1) * (%s)]; " % (v, ys, kk, kk), like)
                    + body + T(" vf_i += 1; } }", like))
         elif "zip" in etxt and "chunks_exact_mut" in etxt and ps[0].s == "(":
             # R19a: for (&a, b) in X.iter().zip(Y.chunks_exact_mut(K))
@@ -974,8 +1030,9 @@ def rewrite_for_loops(toks):
             new = (T("{ let vf_n: usize = { let vf_a = (%s).len(); let vf_b = (%s).len() / (%s); "
                      "if vf_b < vf_a { vf_b } else { vf_a } }; let mut vf_i: usize = 0; while vf_i < vf_n "
                      % (xs, ys, kk), like)
-                   + marks + T("{ let %s = (%s)[vf_i]; let %s = &mut (%s)[vf_i * (%s)..(vf_i + 1) * (%s)]; "
-                               % (va, xs, vb, ys, kk, kk), like)
+                   + marks + T("{ ", like) + lead
+                   + T("let %s = (%s)[vf_i]; let %s = &mut (%s)[vf_i * (%s)..(vf_i + 1) * (%s)]; "
+                       % (va, xs, vb, ys, kk, kk), like)
                    + body + T(" vf_i += 1; } }", like))
         else:
             raise ExtractError("for-loop over `%s` is outside rules R11/R19 (line %d)" % (txt(es), t.line))
@@ -1007,6 +1064,39 @@ def strip_unsafe_blocks(toks):
     return out
 
 
+_BYTE_ESC = {"n": 10, "r": 13, "t": 9, "\\": 92, "0": 0, "'": 39, '"': 34}
+
+
+def rewrite_bytestrings(toks):
+    """R20: byte-string literal b"xyz" -> &[120u8, 121u8, 122u8] (same type &'static [u8; N], same bytes;
+    Verus knows the length of a byte-string literal but not its contents)"""
+    out = []
+    for t in toks:
+        if t.k == "str" and t.s.startswith('b"'):
+            s, vals, k = t.s[2:-1], [], 0
+            while k < len(s):
+                ch = s[k]
+                if ch == "\\":
+                    e = s[k + 1] if k + 1 < len(s) else ""
+                    if e == "x" and re.match(r"^[0-9a-fA-F]{2}$", s[k + 2:k + 4]):
+                        vals.append(int(s[k + 2:k + 4], 16))
+                        k += 4
+                    elif e in _BYTE_ESC:
+                        vals.append(_BYTE_ESC[e])
+                        k += 2
+                    else:
+                        raise ExtractError("byte-string escape outside rule R20 at line %d" % t.line)
+                elif ord(ch) < 128:
+                    vals.append(ord(ch))
+                    k += 1
+                else:
+                    raise ExtractError("non-ASCII byte-string literal at line %d" % t.line)
+            out.extend(T(("&[" + ", ".join("%du8" % v for v in vals) + "]") if vals else "&[0u8; 0]", t))
+        else:
+            out.append(t)
+    return out
+
+
 def rewrite_fn(item, fc, cfg, opts, overlay):
     """returns the token list of the rewritten function (signature + contract + body)"""
     hdr = strip_inner_attrs(list(item.header), cfg)
@@ -1015,6 +1105,8 @@ def rewrite_fn(item, fc, cfg, opts, overlay):
     body = place_marks(body, fc) if fc else body
     body = strip_unsafe_blocks(body)
     body = rewrite_macros(body)
+    if opts.get("anyhow"):
+        body = rewrite_anyhow(body)
     for pat, repl, _, _ in (fc.substs if fc else []):
         n = apply_subst(body, pat, repl) + apply_subst(hdr, pat, repl)
         if n == 0:
@@ -1025,9 +1117,10 @@ def rewrite_fn(item, fc, cfg, opts, overlay):
         apply_subst(hdr, pat, repl)
     for pat, repl in GLOBAL_SUBSTS:
         apply_subst(body, pat, repl)
+    body = rewrite_bytestrings(body)
     body = rewrite_minmax(body)
     body = rewrite_join(body, opts.get("join_order", "lr"))
-    body = rewrite_for_loops(body)
+    body = rewrite_for_loops(body, opts.get("array_iter_mut", ()))
     # splice overlay text at marks
     if fc:
         out = []
@@ -1230,7 +1323,7 @@ KEEP_DERIVES = ("Clone", "Copy")
 def assemble(repo, unit, cfg, opts=None):
     """unit: dict with keys files [(rel, modpath)], overlays [paths], prelude [paths], spec [paths]."""
     from common import read
-    opts = opts or {}
+    opts = dict(unit.get("opts") or {}, **(opts or {}))   # unit-level rule options, overridable per run
     ov = Overlay()
     for p in unit["overlays"]:
         ov.load(p)
@@ -1239,7 +1332,7 @@ def assemble(repo, unit, cfg, opts=None):
     asm.emit("// ASSEMBLED BY /verif/lib/extract.py FROM %s (config %s) -- do not edit\n" % (repo, cfg.name))
     asm.emit("#![allow(unused_imports, unused_variables, unused_mut, dead_code, unused_parens, "
              "unused_braces, non_snake_case, unused_assignments, unreachable_code, non_camel_case_types, "
-             "unused_labels, non_upper_case_globals)]\n")
+             "unused_labels, non_upper_case_globals)]\n#![verifier::allow(autoderive_clone_without_spec)]\n")
     asm.emit("use vstd::prelude::*;\n")
     for p in unit.get("prelude_outside", []):
         asm.emit(read(p), "verif:" + os.path.relpath(p, os.path.dirname(os.path.dirname(os.path.abspath(__file__)))), 1)
@@ -1264,7 +1357,8 @@ def assemble(repo, unit, cfg, opts=None):
             # module = path up to the type/function
             parent = getattr(it, "parent", None)
             if parent is not None and parent.kind == "impl":
-                mod = parent.path.rsplit("::", 1)[0]
+                # (the `{impl Trait}` suffix may itself contain `::`, e.g. `{impl fmt::Display}`)
+                mod = parent.path.split("{impl", 1)[0].rsplit("::", 1)[0]
             elif parent is not None and parent.kind == "trait":
                 mod = parent.path.rsplit("::", 1)[0]
             else:
@@ -1283,6 +1377,8 @@ def assemble(repo, unit, cfg, opts=None):
 
     def emit_module(mod):
         its = modules.get(mod, [])
+        if unit.get("broadcast", True):
+            asm.emit("broadcast use crate::vf_lemmas::vf_lemma_subrange_full;\n")
         for u in ov.uses.get(mod, []):
             asm.emit(u + "\n")
         for text, f, l in ov.raw.get(mod, []):
@@ -1328,6 +1424,14 @@ def assemble(repo, unit, cfg, opts=None):
                     asm.emit("impl%s %s for %s {\n" % (gen, key[2], parent.impl_self))
                     for it in members:
                         emit_item(it, in_trait=True)
+                elif parent.impl_trait and not re.match(r"^[A-Za-z_][A-Za-z0-9_:]*(<.*>)?$", parent.impl_self):
+                    # R13b: external trait implemented for a foreign (array / slice / reference) type: Rust allows
+                    # no inherent impl there -> free fns `<type>__Trait__method` with `Self` spelled out
+                    if gen:
+                        raise ExtractError("generic trait impl for `%s` is outside rule R13b" % parent.impl_self)
+                    for it in members:
+                        emit_item(it, in_trait=False, free_self=parent.impl_self)
+                    continue
                 else:
                     asm.emit("impl%s %s {\n" % (gen, parent.impl_self))
                     for it in members:
@@ -1343,7 +1447,7 @@ def assemble(repo, unit, cfg, opts=None):
                     emit_item(it, in_trait=True)
                 asm.emit("}\n")
 
-    def emit_item(it, in_trait):
+    def emit_item(it, in_trait, free_self=None):
         fc = ov.fns.get(it.path)
         vis = "" if in_trait else "pub "
         if it.kind in ("fn", "fndecl"):
@@ -1372,8 +1476,15 @@ def assemble(repo, unit, cfg, opts=None):
                 for k, t in enumerate(sigtoks):
                     if t.k == "ident" and t.s == "fn":
                         j = sidx(sigtoks, k + 1)
-                        sigtoks[j:j + 1] = T(newname, sigtoks[j])
+                        sigtoks[j:j + 1] = T((sanitize_type(free_self) + "__" if free_self else "") + newname,
+                                             sigtoks[j])
                         break
+                if free_self:
+                    if any(t.k == "ident" and t.s == "self" for t in sigtoks):
+                        raise ExtractError("method with a receiver in a trait impl for `%s` is outside rule R13b"
+                                           % free_self)
+                    sigtoks = [x for t in sigtoks for x in (T(free_self, t) if t.k == "ident" and t.s == "Self" else [t])]
+                    body = [x for t in body for x in (T(free_self, t) if t.k == "ident" and t.s == "Self" else [t])]
             asm.emit(vis)
             asm.emit_toks(sigtoks)
             if spec:
